@@ -49,7 +49,7 @@ pub fn families(prop: &str, tier: Tier) -> Vec<Cfg> {
         let q = tier == Tier::Quick;
         let mut x = Cfg::base(name);
         x.props = vec![p];
-        x.ops = vec![OpK::Pub1, OpK::Pub2, OpK::Sub, OpK::Unsub, OpK::Poll, OpK::DropConn];
+        x.ops = vec![OpK::Pub1, OpK::Pub2, OpK::Sub, OpK::Unsub, OpK::Poll, OpK::Recv, OpK::Drive, OpK::DropConn];
         x.io = IoMenu::benign();
         x.broker.ack_forms = true;
         x.broker.receive_max = vec![Some(2)];
